@@ -302,14 +302,20 @@ func (n *Nodis) addBlockKey(key string, c chan string) {
 }
 
 func (n *Nodis) notifyBlockingKey(key string) {
+	// the registry stays read-locked while the channels are used: a departing client closes
+	// its channel under the write lock
 	n.blockingKeysMutex.RLock()
+	defer n.blockingKeysMutex.RUnlock()
 	cList, ok := n.blockingKeys.Get(key)
-	n.blockingKeysMutex.RUnlock()
 	if !ok {
 		return
 	}
 	cList.ForRange(func(c chan string) bool {
-		c <- key
+		// never wait for a client (the caller holds the key lock): one pending wake-up is enough
+		select {
+		case c <- key:
+		default:
+		}
 		return true
 	})
 }
@@ -335,7 +341,7 @@ func (n *Nodis) removeBlockingKeys(rc chan string, keys ...string) {
 }
 
 func (n *Nodis) BLPop(timeout time.Duration, keys ...string) (string, []byte) {
-	var c = make(chan string)
+	var c = make(chan string, 1)
 	defer n.removeBlockingKeys(c, keys...)
 	for _, key := range keys {
 		results := n.LPop(key, 1)
@@ -368,7 +374,7 @@ func (n *Nodis) BLPop(timeout time.Duration, keys ...string) (string, []byte) {
 }
 
 func (n *Nodis) BRPop(timeout time.Duration, keys ...string) (string, []byte) {
-	var c = make(chan string)
+	var c = make(chan string, 1)
 	defer n.removeBlockingKeys(c, keys...)
 	for _, key := range keys {
 		results := n.RPop(key, 1)
